@@ -466,6 +466,30 @@ pub fn op_ae(a: &[&str]) -> String {
     }
 }
 
+/// 32-bit discrete log after a *sequence* of configuration calls on one instance (C10):
+/// `dlogseq <target> <k|?> t4+b33+t1+t3?` — `t<n>` = num_threads(n), `b<n>` = set_compression_batch_size(n);
+/// a trailing `?` ignores a refusal (the instance must then be unchanged), otherwise a refusal ends with `err`
+pub fn op_dlogseq(a: &[&str]) -> String {
+    use solana_zk_sdk::encryption::discrete_log::DiscreteLog;
+    use std::num::NonZeroUsize;
+    let [t, _k, seq] = a else { return "bad-op".into() };
+    let Some(tb) = unhex(t) else { return "bad-op".into() };
+    let Some(p) = curve25519_dalek::ristretto::CompressedRistretto::from_slice(&tb).ok().and_then(|c| c.decompress()) else { return "bad-op".into() };
+    let mut d = DiscreteLog::new_for_g(p);
+    for tok in seq.split('+') {
+        if tok == "-" { continue; }
+        let (tok, lenient) = match tok.strip_suffix('?') { Some(x) => (x, true), None => (tok, false) };
+        let Some(n) = tok.get(1..).and_then(|x| x.parse::<usize>().ok()).and_then(NonZeroUsize::new) else { return "bad-op".into() };
+        let r = match tok.as_bytes()[0] {
+            b't' => d.num_threads(n).is_err(),
+            b'b' => d.set_compression_batch_size(n).is_err(),
+            _ => return "bad-op".into(),
+        };
+        if r && !lenient { return "err".into() }
+    }
+    match d.decode_u32() { Some(x) => format!("some:{}", x), None => "none".into() }
+}
+
 /// 32-bit discrete log under a configuration (C10)
 pub fn op_dlog(a: &[&str]) -> String {
     use solana_zk_sdk::encryption::discrete_log::DiscreteLog;
